@@ -261,16 +261,17 @@ pub(crate) struct LookupGuard {
 }
 
 impl LookupGuard {
-    pub(crate) fn start(name: &str, ns: Option<&crate::model::Namespace>) -> Self {
+    pub(crate) fn start(name: &str, ns: Option<&crate::model::Namespace>, is_type: bool) -> Self {
         if on() {
             let d = DEPTH.with(|d| {
                 d.set(d.get() + 1);
                 d.get()
             });
             push(format!(
-                "{{\"ev\":\"lookup_start\",\"name\":{},\"ns\":{},\"depth\":{}}}",
+                "{{\"ev\":\"lookup_start\",\"name\":{},\"ns\":{},\"wanted\":{},\"depth\":{}}}",
                 esc(name),
                 opt(ns.map(|n| n.namespace.as_str())),
+                esc(if is_type { "type" } else { "element" }),
                 d
             ));
         }
@@ -297,6 +298,28 @@ impl Drop for LookupGuard {
                 None => push(format!("{{\"ev\":\"lookup_end\",\"depth\":{d},\"how\":\"none\"}}")),
             }
         }
+    }
+}
+
+/// the forward-reference memo gets an entry
+pub(crate) fn memo_insert(name: &str, is_type: bool) {
+    if on() {
+        push(format!(
+            "{{\"ev\":\"memo_insert\",\"name\":{},\"wanted\":{}}}",
+            esc(name),
+            esc(if is_type { "type" } else { "element" })
+        ));
+    }
+}
+
+/// the tree search meets a component that is still being converted and hands out a stand-in
+pub(crate) fn placeholder(name: &str, is_type: bool) {
+    if on() {
+        push(format!(
+            "{{\"ev\":\"placeholder\",\"name\":{},\"wanted\":{}}}",
+            esc(name),
+            esc(if is_type { "type" } else { "element" })
+        ));
     }
 }
 
